@@ -175,6 +175,7 @@ Qed.
 (* the branch that draws the winner with numpy.random.choice from the squared tallies *)
 Definition brd_np (p : profile) (prev : estate) : M (profile * estate) :=
   if Qeq_bool (total_wt (ballots p)) 0 then mfail EValue else
+  if Qeq_bool (squares_mass cand (escores prev) (total_wt (ballots p))) 0 then mfail EValue else
   do! dc := next_draw cand (CNpChoice (squares cand (escores prev) (total_wt (ballots p)))) in
   match dc with
   | DCand w => if memb w (map fst (escores prev)) then elect_one w [] p prev else mfail EScript
@@ -207,6 +208,7 @@ Lemma brd_np_ok : forall (p : profile) (prev : estate) (s s' : mstate) np st,
 Proof.
   intros p prev s s' np st Hr Hkeys H. unfold brd_np in H.
   destruct (Qeq_bool (total_wt (ballots p)) 0); [discriminate H|].
+  destruct (Qeq_bool (squares_mass cand (escores prev) (total_wt (ballots p))) 0); [discriminate H|].
   apply mbind_ok_inv in H. destruct H as (dc & s1 & _ & H).
   destruct dc as [| | | |w|]; try discriminate H.
   destruct (memb w (map fst (escores prev))) eqn:Hm; [|discriminate H].
@@ -216,12 +218,16 @@ Qed.
 
 Lemma brd_np_err : forall (p : profile) (prev : estate) (s : mstate) e,
   ranked_profile p -> brd_np p prev s = inr e ->
-  (e = EValue /\ total_wt (ballots p) <= 0) \/ e = EScript.
+  (e = EValue /\ (total_wt (ballots p) <= 0 \/
+                  squares_mass cand (escores prev) (total_wt (ballots p)) == 0)) \/ e = EScript.
 Proof.
   intros p prev s e Hr H. unfold brd_np in H.
   destruct (Qeq_bool (total_wt (ballots p)) 0) eqn:Hz.
-  { unfold mfail, err in H. injection H as <-. left. split; [reflexivity|].
+  { unfold mfail, err in H. injection H as <-. left. split; [reflexivity|]. left.
     apply Qeq_bool_iff in Hz. rewrite Hz. apply Qle_refl. }
+  destruct (Qeq_bool (squares_mass cand (escores prev) (total_wt (ballots p))) 0) eqn:Hz2.
+  { unfold mfail, err in H. injection H as <-. left. split; [reflexivity|]. right.
+    apply Qeq_bool_iff in Hz2. exact Hz2. }
   right. unfold mbind, Core.next_draw in H.
   destruct (scr s) as [|d rest]; [unfold err in H; injection H as <-; reflexivity|].
   unfold ok in H. destruct d as [| | | |w|];
@@ -252,10 +258,14 @@ Proof.
   - apply Hgen. exact H.
 Qed.
 
-(* D3, boosted *)
+(* D3, boosted.  The ValueError of the squares branch (numpy: "probabilities contain NaN") has two
+   causes: total weight 0, or — for a previous state whose tallies are all zero, which a run never
+   passes (see [dictator_run_errors] and C17_brd.brd_step_errors_linked) — normaliser 0 *)
 Theorem brd_step_errors : forall (p : profile) (prev : estate) (s : mstate) e,
   ranked_profile p -> brd_step p prev s = inr e ->
-  (e = EIndex /\ ballots p = []) \/ (e = EValue /\ total_wt (ballots p) <= 0) \/ e = EScript.
+  (e = EIndex /\ ballots p = []) \/
+  (e = EValue /\ (total_wt (ballots p) <= 0 \/
+                  squares_mass cand (escores prev) (total_wt (ballots p)) == 0)) \/ e = EScript.
 Proof.
   intros p prev s e Hr H. rewrite brd_step_unfold in H.
   destruct (scr s) as [|d rest]; [injection H as <-; right; right; reflexivity|].
@@ -263,13 +273,15 @@ Proof.
   set (s1 := mkM rest (CUniform :: lg s)) in *.
   assert (Hgen : (if Qle_bool u (1 / (Qnat (length (cands p)) - 1)) then brd_np p prev s1
                   else rd_step p prev s1) = inr e ->
-                 (e = EIndex /\ ballots p = []) \/ (e = EValue /\ total_wt (ballots p) <= 0) \/
+                 (e = EIndex /\ ballots p = []) \/
+                 (e = EValue /\ (total_wt (ballots p) <= 0 \/
+                    squares_mass cand (escores prev) (total_wt (ballots p)) == 0)) \/
                  e = EScript).
   { intros G. destruct (Qle_bool u (1 / (Qnat (length (cands p)) - 1))).
     - destruct (brd_np_err p prev s1 e Hr G) as [Hv| ->]; [right; left; exact Hv|right; right; reflexivity].
     - destruct (rd_step_errors p prev s1 e Hr G) as [Hi|[(Hv & _ & Ht)| ->]].
       + left. exact Hi.
-      + right. left. split; assumption.
+      + right. left. split; [exact Hv|left; exact Ht].
       + right. right. reflexivity. }
   destruct (cands p) as [|c [|c' l]] eqn:Hc.
   - apply Hgen. exact H.
@@ -425,6 +437,7 @@ Lemma dictator_loop_err : forall fuel (boosted : bool) m (p0 cur : profile) sts 
   dinv p0 cur sts -> (m < Z.of_nat fuel + count_elected sts)%Z ->
   dictator_loop fuel boosted m cur sts s = inr e ->
   exists (cur' : profile) prev s1, ranked_profile cur' /\ incl (cands cur') (cands p0) /\
+    first_place_votes cur' = inl (escores prev) /\
     (if boosted then brd_step cur' prev s1 else rd_step cur' prev s1) = inr e.
 Proof.
   induction fuel as [|fuel IH]; intros boosted m p0 cur sts s e Hinv Hfuel H.
@@ -443,7 +456,9 @@ Proof.
       rewrite (shape_count _ (di_shape _ _ _ Hinv')).
       rewrite (shape_count _ (di_shape _ _ _ Hinv)) in Hfuel. cbn [length] in Hfuel |- *. lia.
     + injection H as <-. exists cur, prev, s. split; [exact (di_ranked _ _ _ Hinv)|].
-      split; [exact (di_sub _ _ _ Hinv)|]. destruct boosted; exact Hstep.
+      split; [exact (di_sub _ _ _ Hinv)|]. split; [|destruct boosted; exact Hstep].
+      destruct (di_head _ _ _ Hinv) as (prev' & older' & E & Hfpv & _). injection E as <- <-.
+      exact Hfpv.
 Qed.
 
 (* ------------------------------------------------------------------ *)
@@ -547,6 +562,7 @@ Theorem dictator_run_errors : forall (boosted : bool) m (p : profile) (s : mstat
   ranked_profile p -> run_dictator boosted m p s = inr e ->
   (e = EValue /\ ~ (1 <= m <= Z.of_nat (length (cands p)))%Z) \/
   (exists (cur : profile) prev s1, ranked_profile cur /\ incl (cands cur) (cands p) /\
+     first_place_votes cur = inl (escores prev) /\
      (if boosted then brd_step cur prev s1 else rd_step cur prev s1) = inr e).
 Proof.
   intros boosted m p s e Hr H.
@@ -570,17 +586,19 @@ Corollary dictator_error_kinds : forall (boosted : bool) m (p : profile) (s : ms
       ranked_profile cur /\ incl (cands cur) (cands p) /\ ballots cur = []).
 Proof.
   intros boosted m p s e Hr H.
-  destruct (dictator_run_errors boosted m p s e Hr H) as [[-> _]|(cur & prev & s1 & Hc & Hsub & Hstep)].
+  destruct (dictator_run_errors boosted m p s e Hr H) as [[-> _]|(cur & prev & s1 & Hc & Hsub & _ & Hstep)].
   { split; [left; reflexivity|discriminate]. }
-  assert (Hk : (e = EIndex /\ ballots cur = []) \/ (e = EValue /\ total_wt (ballots cur) <= 0) \/
-               e = EScript).
+  assert (Hk : (e = EIndex /\ ballots cur = []) \/ e = EValue \/ e = EScript).
   { destruct boosted.
-    - exact (brd_step_errors cur prev s1 e Hc Hstep).
+    - destruct (brd_step_errors cur prev s1 e Hc Hstep) as [Hi|[(Hv & _)|Hs]].
+      + left. exact Hi.
+      + right. left. exact Hv.
+      + right. right. exact Hs.
     - destruct (rd_step_errors cur prev s1 e Hc Hstep) as [Hi|[(Hv & _ & Ht)|Hs]].
       + left. exact Hi.
-      + right. left. split; assumption.
+      + right. left. exact Hv.
       + right. right. exact Hs. }
-  destruct Hk as [[-> Hb]|[[-> _]| ->]].
+  destruct Hk as [[-> Hb]|[->| ->]].
   - split; [right; left; reflexivity|]. intros _. exists cur. split; [exact Hc|split; [exact Hsub|exact Hb]].
   - split; [left; reflexivity|discriminate].
   - split; [right; right; reflexivity|discriminate].
